@@ -20,7 +20,9 @@ NONTRIVIAL_RULE = ('1D: every duplicate-free non-empty order over N <= 4 (all ar
                    'tier), given as list of tuples or tuple of tuples, random orders on shapes <= 4x4, Moore and von Neumann; '
                    'one rule object reused for two evolve calls (1D and 2D); the wrapped rule in every callable shape / '
                    'return type of twins.RULE_DRESSINGS and the AsynchronousRule object as an instance of a '
-                   'behaviour-preserving user subclass; orders with NumPy-integer items; wrapped rules Script and Lin; '
+                   'behaviour-preserving user subclass; the wrapped callable a temporary of the caller (inline bound method / '
+                   'lambda / partial / closure, garbage collected before evolve); one object driven through two or three '
+                   'successive evolve calls; orders with NumPy-integer items; wrapped rules Script and Lin; '
                    'T up to 3L+2. '
                    'non-trivial = the run returned arrays and at least one step rewrote a cell with a different value; '
                    'distinct = distinct case dicts')
@@ -67,19 +69,22 @@ def _grid(rng, R, C, k=2):
     return [[rng.randint(0, k - 1) for _ in range(C)] for _ in range(R)]
 
 
-def _case1(rng, kind, N, order, rand, r=None, T=None, hist_len=1, fam=None, form='list', reuse=None, rng_args=None):
+def _case1(rng, kind, N, order, rand, r=None, T=None, hist_len=1, fam=None, form='list', reuse=None, rng_args=None,
+           calls=None):
     L = len(order) if order is not None else N
     if r is None:
         r = rng.randint(1, min(N, 3))
     if T is None:
         T = 3 * L + 2
-    steps = max(T - 1, 0) + (max(reuse['T2'] - 1, 0) if reuse else 0)
+    steps = max(T - 1, 0) + (max(reuse['T2'] - 1, 0) if reuse else 0) + sum(max(x['T'] - 1, 0) for x in (calls or []))
     nper = (1 if order is None else 0) + (steps if rand else 0)
     c = {'kind': kind, 'dim': 1, 'rule': _rule(rng, 1, r, L, steps, fam), 'order': order, 'rand': rand,
          'perms': _perms(rng, L, nper), 'r': r, 'hist': [_row(rng, N, rng.choice([2, 2, 3])) for _ in range(hist_len)],
          'T': T, 'form': form}
     if rng_args is not None:
         c['range'] = list(rng_args)
+    if calls:
+        c['calls'] = [dict(x, hist=[_row(rng, N, 3)]) if x['mode'] == 'fresh' else dict(x) for x in calls]
     if reuse:
         c['reuse'] = dict(reuse)
         if reuse['mode'] == 'fresh':
@@ -87,17 +92,20 @@ def _case1(rng, kind, N, order, rand, r=None, T=None, hist_len=1, fam=None, form
     return c
 
 
-def _case2(rng, kind, R, C, order, rand, r=None, T=None, hist_len=1, fam=None, nb=None, form='list', reuse=None):
+def _case2(rng, kind, R, C, order, rand, r=None, T=None, hist_len=1, fam=None, nb=None, form='list', reuse=None,
+           calls=None):
     L = len(order) if order is not None else R * C
     if r is None:
         r = rng.randint(1, max(1, min(R, C, 2)))
     if T is None:
         T = 3 * L + 2
-    steps = max(T - 1, 0) + (max(reuse['T2'] - 1, 0) if reuse else 0)
+    steps = max(T - 1, 0) + (max(reuse['T2'] - 1, 0) if reuse else 0) + sum(max(x['T'] - 1, 0) for x in (calls or []))
     nper = (1 if order is None else 0) + (steps if rand else 0)
     c = {'kind': kind, 'dim': 2, 'rule': _rule(rng, 2, r, L, steps, fam), 'order': order, 'rand': rand,
          'perms': _perms(rng, L, nper), 'r': r, 'nb': nb or rng.choice(['Moore', 'von Neumann']),
          'hist': [_grid(rng, R, C) for _ in range(hist_len)], 'T': T, 'form': form}
+    if calls:
+        c['calls'] = [dict(x, hist=[_grid(rng, R, C, 3)]) if x['mode'] == 'fresh' else dict(x) for x in calls]
     if reuse:
         c['reuse'] = dict(reuse)
         if reuse['mode'] == 'fresh':
@@ -253,6 +261,55 @@ def generate(rng, tier):
                            form=rng.choice(['list', 'tuple', 'npint']))
                 c['dress'], c['subclass'] = how, sub
                 yield c
+    # ---- lifetime: the wrapped callable is a TEMPORARY of the caller (bound method of an inline-constructed object,
+    #      inline lambda / partial / closure); run_impl builds it inside the argument list and collects garbage
+    #      before evolve, so only the AsynchronousRule object keeps it alive
+    for lt in ('method', 'lambda', 'partial', 'closure'):
+        for _ in range(6 if thorough else 2):
+            for variant in ('order', 'order/randomized', 'num_cells'):
+                rand = variant != 'order' and (variant == 'order/randomized' or rng.random() < 0.5)
+                N = rng.randint(2, 8)
+                k = rng.randint(1, N)
+                order = None if variant == 'num_cells' else rng.sample(range(N), k)
+                L = N if order is None else k
+                c = _case1(rng, 'lifetime/%s/1d/%s' % (lt, variant), N, order, rand, T=rng.choice([L + 2, 2 * L + 1]))
+                c['lifetime'] = lt
+                yield c
+                R, C = rng.randint(1, 3), rng.randint(1, 3)
+                cells = [[i, j] for i in range(R) for j in range(C)]
+                k = rng.randint(1, len(cells))
+                order = None if variant == 'num_cells' else rng.sample(cells, k)
+                L = len(cells) if order is None else k
+                c = _case2(rng, 'lifetime/%s/2d/%s' % (lt, variant), R, C, order, rand, T=rng.choice([L + 2, 2 * L + 1]))
+                c['lifetime'] = lt
+                yield c
+    # ---- continue: ONE rule object driven through two or three successive evolve calls, each continuing from the
+    #      previous result (sometimes from a fresh state); T1-1 is not a multiple of the order length, so the
+    #      schedule must carry on in the middle of the cycle; compared with the model's state machine run over
+    #      the concatenated calls
+    for dim in (1, 2):
+        for _ in range(600 if thorough else 70):
+            if dim == 1:
+                N = rng.randint(2, 8)
+                cells = list(range(N))
+            else:
+                R, C = rng.randint(1, 3), rng.randint(1, 3)
+                if R * C == 1:
+                    C = 2
+                cells = [[i, j] for i in range(R) for j in range(C)]
+            use_num_cells = rng.random() < 0.15
+            k = len(cells) if use_num_cells else rng.randint(2, len(cells))
+            order = None if use_num_cells else rng.sample(cells, k)
+            T1 = 1 + rng.choice([x for x in range(1, 2 * k + 2) if x % k != 0])
+            ncalls = rng.choice([1, 1, 2])
+            calls = [{'T': rng.choice([2, k, k + 2, rng.randint(1, 2 * k + 1)]),
+                      'mode': 'cont' if rng.random() < 0.8 else 'fresh'} for _ in range(ncalls)]
+            rand = rng.random() < 0.4
+            kind = 'continue/%dd/%dcalls%s' % (dim, ncalls + 1, '/randomized' if rand else '')
+            if dim == 1:
+                yield _case1(rng, kind, N, order, rand, T=T1, form=rng.choice(['list', 'tuple']), calls=calls)
+            else:
+                yield _case2(rng, kind, R, C, order, rand, T=T1, form=rng.choice(['list', 'tuple']), calls=calls)
     # ---- reuse: ONE rule object through two consecutive evolve calls; the first run's length is mostly not a
     #      multiple of L, so that the second call starts in the middle of the cycle (curr <> 0)
     for _ in range(900 if thorough else 150):
@@ -303,6 +360,16 @@ def _caller_order(c, np):
     return order, lambda o: [[int(x[0]), int(x[1])] for x in o]
 
 
+def _call_rule(f, n, cc, t):
+    return f(n, cc, t)
+
+
+def _make_closure(f):
+    def closure_rule(n, cc, t):
+        return f(n, cc, t)
+    return closure_rule
+
+
 def run_impl(c):
     import numpy as np
     import cellpylib as cpl
@@ -320,9 +387,32 @@ def run_impl(c):
             x[i] = v
 
     dim = c['dim']
+    import gc
     inner = (twins.Logged1 if dim == 1 else twins.Logged2)(twins.make_rule(c['rule'], dim))
-    # what AsynchronousRule is given: the logged rule, possibly in another callable shape / with another return type
-    wrapped = twins.dress(inner, c.get('dress'))
+
+    # What AsynchronousRule is given: the logged rule, possibly in another callable shape / with another return type.
+    # LIFETIME RULE: the dressed callable is built inside the argument list of the constructor and never bound to a
+    # name here (only `inner`, the logger its closure refers to, is kept), and garbage is collected before evolve
+    # runs: the AsynchronousRule object must itself keep its wrapped rule alive.
+    class Shifted:
+        def __init__(self, k):
+            self.k = k
+
+        def rule(self, n, cc, t):
+            return inner(n, cc, t) + self.k - self.k
+
+    def make_wrapped():
+        lt = c.get('lifetime')
+        if lt == 'method':
+            return Shifted(5).rule
+        if lt == 'lambda':
+            return lambda n, cc, t: inner(n, cc, t)
+        if lt == 'partial':
+            import functools
+            return functools.partial(_call_rule, inner)
+        if lt == 'closure':
+            return _make_closure(inner)
+        return twins.dress(inner, c.get('dress'))
     async_cls = cpl.AsynchronousRule
     if c.get('subclass') == 'plain':
         class UserAsync(cpl.AsynchronousRule):
@@ -361,14 +451,22 @@ def run_impl(c):
         res = {}
         if c['order'] is None:
             num_cells = len(c['hist'][-1]) if dim == 1 else (len(c['hist'][-1]), len(c['hist'][-1][0]))
-            rule = async_cls(apply_rule=wrapped, num_cells=num_cells, randomize_each_cycle=c['rand'])
+            rule = async_cls(apply_rule=make_wrapped(), num_cells=num_cells, randomize_each_cycle=c['rand'])
             order, read = None, None
         else:
             order, read = _caller_order(c, np)
             res['caller_type_before'] = type(order).__name__
-            rule = async_cls(apply_rule=wrapped, update_order=order, randomize_each_cycle=c['rand'])
+            rule = async_cls(apply_rule=make_wrapped(), update_order=order, randomize_each_cycle=c['rand'])
+        gc.collect()
         out = ev(rule, hist, c['T'])
         res['rows'] = np.asarray(out).tolist()
+        if c.get('calls'):
+            res['seq'] = [{'hist': c['hist'], 'T': c['T'], 'rows': res['rows']}]
+            for x in c['calls']:
+                gc.collect()
+                h = np.asarray(out) if x['mode'] == 'cont' else np.array(x['hist'])
+                out = ev(rule, h, x['T'])
+                res['seq'].append({'hist': h.tolist(), 'T': x['T'], 'rows': np.asarray(out).tolist()})
         if c.get('reuse'):
             ru = c['reuse']
             hist2 = np.asarray(out) if ru['mode'] == 'cont' else np.array(ru['hist2'])
@@ -400,6 +498,22 @@ def to_coq(c, obs):
     ps = clist(c['perms'], lambda p: clist(p, cnat))
     sp = twins.coq_rule_spec(c['rule'])
     ru = c.get('reuse')
+    if c.get('calls'):
+        # the histories given to the later calls are what the implementation was actually given (observation)
+        if obs[0] == 'ok':
+            given = [(x['hist'], x['T']) for x in obs[1]['seq']]
+        else:
+            given = [(c['hist'], c['T'])] + [(x.get('hist') or c['hist'], x['T']) for x in c['calls']]
+        if c['dim'] == 1:
+            order = copt(c['order'], lambda o: clist(o, cnat))
+            calls = clist(given, lambda g: '(%s, %s)' % (cgrid(g[0]), cnat(g[1])))
+            o = cres(obs, lambda v: '(%s, %s)' % (clist([x['rows'] for x in v['seq']], cgrid), _clog(v['log'])))
+            return '(C1DS %s %s %s %s %s %s %s)' % (sp, order, cbool(c['rand']), ps, cnat(c['r']), calls, o)
+        order = copt(c['order'], lambda o: clist(o, lambda x: '(%s, %s)' % (cnat(x[0]), cnat(x[1]))))
+        calls = clist(given, lambda g: '(%s, %s)' % (chist(g[0]), cnat(g[1])))
+        o = cres(obs, lambda v: '(%s, %s)' % (clist([x['rows'] for x in v['seq']], chist), _clog(v['log'])))
+        return '(C2DS %s %s %s %s %s %s %s %s)' % (sp, order, cbool(c['rand']), ps, cnat(c['r']),
+                                                  cbool(c['nb'] == 'von Neumann'), calls, o)
     if c['dim'] == 1:
         order = copt(c['order'], lambda o: clist(o, cnat))
         if ru:
@@ -481,6 +595,17 @@ def oracle(c, obs):
             return 'the caller\'s update_order was %s and is %s after the run' % (c['order'], v.get('caller'))
         if v.get('caller_type') != v.get('caller_type_before'):
             return 'the caller\'s update_order changed its type'
+    if c.get('calls'):
+        off = 0
+        for i, x in enumerate(v['seq']):
+            n = max(x['T'] - 1, 0)
+            msg = _frame(c, x['rows'], len(x['hist']), x['T'], v['log'][off:off + n], allowed, off, 'call %d: ' % (i + 1))
+            if msg:
+                return msg
+            off += n
+        if len(v['log']) != off:
+            return 'wrapped rule called %d times in %d steps' % (len(v['log']), off)
+        return None
     n1 = max(c['T'] - 1, 0)
     msg = _frame(c, v['rows'], len(c['hist']), c['T'], v['log'][:n1], allowed, 0, '')
     if msg:
@@ -495,6 +620,19 @@ def oracle(c, obs):
 
 
 def shrink(c):
+    if c.get('calls'):
+        if len(c['calls']) > 1:
+            yield dict(c, calls=c['calls'][:-1])
+        last = c['calls'][-1]
+        if last['T'] > 2:
+            yield dict(c, calls=c['calls'][:-1] + [dict(last, T=last['T'] - 1)])
+        if c['T'] > 2:
+            yield dict(c, T=c['T'] - 1)
+        return
+    if c.get('lifetime'):
+        if c['T'] > 2:
+            yield dict(c, T=2)
+        return
     if c.get('dress') or c.get('subclass'):
         yield dict(c, dress=None, subclass=None)
     if c.get('reuse'):
